@@ -19,7 +19,7 @@ for path in sys.argv[1:]:
         res[sid] = dict(exit=code, conds=conds[:3])
 out = {}
 for sid in sorted(os.listdir(os.path.join(V, 'seeded'))):
-    if not os.path.isdir(os.path.join(V, 'seeded', sid)):
+    if not os.path.isfile(os.path.join(V, 'seeded', sid, 'meta.json')):
         continue
     m = json.load(open(os.path.join(V, 'seeded', sid, 'meta.json')))
     r = res.get(sid, {})
